@@ -215,7 +215,8 @@ def c16_case(tdir, d, k, b):
         rc2, _, err2 = run_tool(tdir, cfg["invoke"], "bigwigtobedgraph" if kind == "bw" else "bigbedtobed", a2, trace=tr2)
     # which internal paths actually ran (hook points `path.*` recorded through BIGTOOLS_VERIF_TRACE)
     events = [] if k % int(os.environ.get("C16_TRACE_EVERY", "40")) == 0 else None     # every fortieth forward conversion: all hook events, for trace validation against Pipeline.tla
-    ev = path_events(tr1, events) | path_events(tr2)
+    events2 = [] if events is not None else None       # ... and of the back-conversion (the same lane pipeline when multi-threaded)
+    ev = path_events(tr1, events) | path_events(tr2, events2)
     seen_path = {"source": sorted(x[len("path.source."):] for x in ev if x.startswith("path.source.")),
                  "passes": 1 if "path.pass.single" in ev else (2 if {"path.pass.first", "path.pass.zoom"} <= ev else 0),
                  "back": sorted(x[len("path.back."):] for x in ev if x.startswith("path.back."))}
@@ -228,7 +229,8 @@ def c16_case(tdir, d, k, b):
             os.remove(p)
         except OSError:
             pass
-    return {"cfg": cfg, "path": b["path"], "items": items, "rc": rc_, "rs": rs_, "re": re_, "size": size[rc_], "obs": obs, "argv1": a1[3:], "argv2": a2[2:], "events": events if rc1 == 0 else None}
+    return {"cfg": cfg, "path": b["path"], "items": items, "rc": rc_, "rs": rs_, "re": re_, "size": size[rc_], "obs": obs, "argv1": a1[3:], "argv2": a2[2:], "events": events if rc1 == 0 else None,
+            "events2": events2 if (rc2 == 0 and events2 and any(e[0] == "pipe.lane.new" for e in events2)) else None}
 
 
 def run_parallel(fn, jobs, workers=8):
@@ -269,6 +271,7 @@ def c16_main():
         log("[C16] MODEL-DRIFT detail: paths seen %s for cfg %s" % (json.dumps(obs[i]["obs"]["seen"]), json.dumps(obs[i]["cfg"])))
     # the write pipeline as the real converter ran it (serial / parallel source with the real indexer, one or two passes)
     traced = [({"source": "converter", "cfg": o["cfg"]}, o["events"]) for o in obs if o.get("events")]
+    traced += [({"source": "back-converter", "cfg": o["cfg"]}, o["events2"]) for o in obs if o.get("events2")]
     if traced:
         from checks.c11 import validate_pipeline_traces
         validate_pipeline_traces(run, traced, label="converter_pipeline_trace_validation", min_lanes=10, min_multi=0)
